@@ -70,11 +70,60 @@ PROPS = {
              "distinct = distinct (attribute, field) pairs",
              shards=(8, 16), n=(1, 1),
              trusted=["json-gold context parsing (ld.Context term definitions) locates the serialization attribute; the harness feeds the attribute string itself to the model"]),
+    "C06": P("cases = a synthetic issuer and a properly issued, BJJ-signed credential per round; then every single-site modification: of the credential (a bound field value, a field removed, issuance date, expiration by a second / "
+             "a nanosecond / removed, subject id changed / removed / added, issuer, status nonce; plus unbound sites: a field not designated by the serialization attribute, the credential's own id) and of the proof's claim "
+             "(nonce, version, updatable, expiration, id position, root position, a data slot +1, schema hash) - with the original signature and re-signed by the issuer; all run through the real VerifyProof; non-trivial = every case; "
+             "distinct = distinct (credential, claim, mutation) hashes",
+             shards=(8, 16), n=(6, 100),
+             trusted=["BabyJubJub/Poseidon signature (go-iden3-crypto): the synthetic issuer signs for real", "Keccak, DID->ID (oracle columns)", "json-gold (document -> root, by the harness directly)"]),
+    "C07": P("cases = synthetic issuers (random BJJ keys, claims/revocation/roots trees, genesis and later states, DIDs derived from the genesis state) x properly issued and signed credentials x 36 bundles: "
+             "2 benign (untouched; 'published' missing with a genesis state) and 34 single faults (signature bit / other key / other claim; auth claim of another issuer; attacker key with the victim's state; inclusion proof for another "
+             "claim / non-existence / existence cleared / sibling changed / missing; each root and the state replaced inconsistently and consistently; garbage roots+state 'published'; state or claims root missing / bad hex; another DID; "
+             "malformed DID; resolver unpublished / missing / error / no state info for later states; status nonce mismatch / missing / without type / unregistered type / resolver error / auth claim revoked / existence flipped / "
+             "inconsistent or missing tree state); non-trivial = every case; distinct = distinct (op,input) hashes",
+             shards=(8, 16), n=(3, 60),
+             trusted=["BabyJubJub signature verification, core.CheckGenesisStateID, w3c.ParseDID, core.IDFromDID: oracle bits computed by the harness with the third-party libraries directly",
+                      "HashCR (idealised hash) for 'accepted => the auth claim is in the tree / not revoked'"]),
+    "C08": P("cases = synthetic issuers with claims trees of 0-60 (thorough: 0-2000) other claims, a third of them sharing low bits with the credential's index hash (deep siblings, aux nodes), the credential's claim inserted and "
+             "proven from the tree, x 24 bundles: 2 benign (untouched; zero roots omitted) and 22 single faults (existence cleared; honest non-existence proof of a never-issued claim; sibling changed / dropped; aux node added; "
+             "proof of another claim; claim replaced; proof missing; claims root replaced / missing; state unrelated to the roots but 'published'; attacker's own tree with the victim's state; revocation / roots root replaced; "
+             "non-zero root dropped; state missing; other DID; malformed DID; resolver unpublished / missing / error / no state info); non-trivial = every case; distinct = distinct (op,input) hashes",
+             shards=(8, 16), n=(4, 60),
+             trusted=["core.CheckGenesisStateID / DID helpers (oracle bits)", "HashCR for 'accepted => the claim is a leaf of the tree with that root'"]),
+    "C09": P("cases = revocation trees (empty, 3 random 64-bit nonces, 40 small nonces, 12 nonces sharing low bits with the queried one) x queries (members, neighbours differing in one low / one middle bit, the base nonce, random, 0) x "
+             "14 kinds of resolver answer (honest + 13 single faults: state / each root replaced or dropped, a consistent answer for another tree, existence flipped, sibling changed, aux changed / equal to the nonce, proof for another nonce), "
+             "unregistered status type; the built-in HTTP resolver through a scripted transport: status codes 199-600, body lengths 16382..16385 and beyond, valid / truncated / garbled JSON, transport error; non-trivial = every case; "
+             "distinct = distinct (op,input) hashes",
+             shards=(8, 16), n=(25, 400),
+             trusted=["go-merkletree-sql proof (de)serialisation", "HashCR for 'any accepted answer tells the truth'"]),
 }
 
 NOT_APPLICABLE = {}
 
 MANIFEST_TEXT = {
+    "C06": dict(
+        text="Lean theorems (Gsp.Props.C06 over Gsp.Claim): the binding check passes only if re-deriving the claim from the credential with the options carried by the proof's claim reproduces it exactly (bind_sound); the proof's claim is then "
+             "the closed form of this credential - its type hash, expiration, subject identifier and, for merklized schemas, its Merkle root, for serialized ones its designated field encodings (bind_pins_credential, via C05 decode_encode); "
+             "two credentials accepted for one claim have the same Merkle root (same_claim_same_root; with C03 root binding the same merklized statements); dispatcher: unknown type => proof-not-found, unsupported => not-supported, binding before "
+             "any proof-specific check (proof_selected_by_type, unsupported_type, bind_checked_first). Tie: real VerifyProof on properly issued credentials and on every single-site modification, vs the model's bindCheck and the direct predicate "
+             "'accepted <=> nothing bound was changed' (binding failures must precede any resolver call).",
+        note="PARTIAL: completeness (the issuance claim always passes its own binding check) is covered by the correspondence, not yet by a Lean theorem. Not bound (observed, stated): the credential's own id; for serialized schemas everything but "
+             "type, subject id, expiration seconds and the slot fields."),
+    "C07": dict(
+        text="Lean theorems (Gsp.Props.C07 over Gsp.Verify): bjj_sound - acceptance implies valid signature bit, issuer state = H(roots), existence proof carrying the auth claim's (hi,hv) to the claims root, published-or-genesis, status nonce = "
+             "auth claim nonce, status validation ok; bjj_auth_in_tree_and_not_revoked - under HashCR the auth claim is a leaf of every tree with that claims root and its nonce is absent from the revocation tree; bjj_complete - an honest bundle "
+             "verifies; bjj_revoked_only_from_status. Tie: the real VerifyProof with synthetic issuers on 36 kinds of bundle vs the model (fed numbers + oracle bits) and the direct predicate 'accepted <=> no fault'.",
+        note="Defects D3 (nil dereferences) and D5 (inclusion proof / claims root / state never related) were fixed in /repo (b9d67f9, 4a75be7). Signature, genesis and DID parsing are oracle bits."),
+    "C08": dict(
+        text="Lean theorems (Gsp.Props.C08): smtp_sound - acceptance implies an existence proof that recomputes the claims root given in the proof, state = H(roots), published-or-genesis; smtp_claim_in_tree - under HashCR the claim is a leaf of "
+             "every tree with that root (verify_sound: soundness of Merkle proofs, proved by induction over the siblings); smtp_complete - a claim inserted in the tree verifies with the generated proof; smtp_missing_members - absent optional "
+             "members give an error. Tie: real VerifyProof on 24 kinds of bundle with claims trees of varying size/depth vs the model and 'accepted <=> no fault'.",
+        note="Defects D4 (existence flag ignored) and D5 (state never related to the roots) fixed in /repo (91242bf, 4a75be7)."),
+    "C09": dict(
+        text="Lean theorems (Gsp.Props.C09): status_sound / status_revoked_iff - ok only with a consistent tree state and a verified non-existence proof; 'revoked' exactly for a verified existence proof; missing_roots_zero; honest_iff - against "
+             "a real revocation tree the honest answer reports non-revoked iff the nonce is absent and revoked iff present (no hash assumption); any_answer_truthful - under HashCR every accepted answer tells the truth; httpStatus_ok_iff. "
+             "Tie: real ValidateCredentialStatus with a scripted registry and the built-in IssuerResolver through a scripted http.DefaultTransport vs the model and the direct predicates.",
+        note="The HTTP resolver's 16 KiB limit: bodies of exactly 16384 bytes are rejected (len < 16384), as the statement's 'smaller than its size limit' says."),
     "C17": dict(
         text="Lean theorems (Gsp.Props.C17 over Gsp.Claim's ParseSerializationAttr / GetFieldSlotIndex / parseSlots models): a reported index is one of 2,3,6,7 and claim building puts exactly that field's value "
              "encoding in that raw slot (slot_agree); for attributes assigning distinct fields to distinct slots the index is reported iff the field is designated there (slot_agree_iff); malformed attributes fail both operations, "
